@@ -782,6 +782,7 @@ class World(object):
     cur = None
     TIMEOUT_MS = 20000
     QUICK_MS = 1500
+    NL_PROBE_MS = 200
 
     @staticmethod
     def get():
@@ -878,7 +879,14 @@ class World(object):
 
     def _feasible(self, cond):
         if self.nl_hint:
-            r = z3.unknown
+            # nonlinear condition: the incremental core mostly answers unknown, so it only gets a short probe; the probe
+            # is what refutes a condition contradicting an asserted fact about the same polynomial (a conflict that is
+            # linear over the monomials, e.g. sqrt's `x < 0` after `x >= 0` was assumed) where nlsat may time out
+            self.solver.set('timeout', self.NL_PROBE_MS)
+            try:
+                r = self._check(cond)
+            finally:
+                self.solver.set('timeout', self.TIMEOUT_MS)
         else:
             self.solver.set('timeout', self.QUICK_MS)
             try:
